@@ -69,6 +69,9 @@ func verifEncode(enc *gob.Encoder, e interface{}) error {
 }
 func verifDecode(dec *gob.Decoder, e interface{}) error {
 	if err := verifFaultNow("Decode"); err != nil {
+		if verifCur.Values["shortread_"+verifItoa(verifOps)] == 1 {
+			return io.ErrUnexpectedEOF // a truncated run file, as gob reports it
+		}
 		return err
 	}
 	return dec.Decode(e)
